@@ -1,6 +1,6 @@
 (* C02: generated deserializers decode every byte string as the specification prescribes.
    Statements only; proofs in Spec/WireThm*.v, Codec/Refine.v and Codec/RefineDes*.v. *)
-From Verif Require Import Wire WireThm WireThmRt WireThmExt WireThmValid Walker Refine RefineDesBase RefineDes.
+From Verif Require Import Wire WireThm WireThmRt WireThmExt WireThmValid Walker Refine RefineDesBase PrimsOn RefineDes WalkerBound InstancesC InstancesCpp InstancesPy.
 Local Open Scope nat_scope.
 
 (* the reported number of consumed bytes never exceeds the number supplied *)
@@ -94,6 +94,59 @@ Example c02_clamped_cursor_example :
   wd_body ref_prims t (bits_of_bytes [1; 2]%N) 16 0 = Ok (VStruct [VStruct [VInt 513]; VInt 0], 24) /\
   dec_body t (bits_of_bytes [1; 2]%N) = Ok (VStruct [VStruct [VInt 513]; VInt 0], 40) /\
   walk_des ref_prims t (bits_of_bytes [1; 2]%N) = des_spec t (bits_of_bytes [1; 2]%N).
+Proof. vm_compute. repeat split; reflexivity. Qed.
+
+(* THE SAME ABOUT THE SHIPPED PRIMITIVES (Codec/Instances*.v; composition with the C14 theorems): the abstract `prims_ok` record
+   is replaced by the models of the support libraries themselves.
+   - from the restricted read law (reads of 1..64 bits, capacity a multiple of 8 within the buffer): *)
+Theorem c02_walker_des_refines_from_read_law : forall P (Wd : nat -> Prop) t bits,
+  (forall w, 1 <= w <= 64 -> Wd w) -> get_law P Wd bits -> ((forall w, Wd w) \/ wf_ty t = true) ->
+  length bits mod 8 = 0 -> walk_des P t bits = des_spec t bits.
+Proof. exact walk_des_refines_on. Qed.
+Print Assumptions c02_walker_des_refines_from_read_law.
+
+(* - the walker never reads at a bit offset above |buffer| + tsz t (this is how the `size_t offset_bits` side condition of the C
+     contracts is established): a record that is only trusted up to B may be used whenever |buffer| + tsz t <= B *)
+Theorem c02_walker_des_cursor_bounded : forall P B t bits, length bits + tsz t <= B ->
+  walk_des (guard B P) t bits = walk_des P t bits.
+Proof. exact walk_des_guard. Qed.
+Print Assumptions c02_walker_des_cursor_bounded.
+
+(* - C: nunavutGetU8/16/32/64 of serialization.h, both target_endianness renderings, on the byte view of the buffer *)
+Theorem c02_c_walk_des_refines : forall (little : bool) t bits, wf_ty t = true -> length bits mod 8 = 0 ->
+  (N.of_nat (length bits + tsz t) < CPrims.two64)%N ->
+  walk_des (c_prims little) t bits = des_spec t bits.
+Proof. exact c_walk_des_refines. Qed.
+Print Assumptions c02_c_walk_des_refines.
+
+(* the typed getter the generated C code calls for a signed field, nunavutGetI<N>, is what the walker computes from the raw field
+   (`signed_of w (N_of_bits (get_bits ...))`), for every width 1..64, offset, capacity and both renderings *)
+Theorem c02_c_signed_getter : forall little buf cap off w, c_dom buf -> 1 <= w <= 64 -> cap <= length buf -> cap mod 8 = 0 ->
+  (N.of_nat off < CPrims.two64)%N ->
+  CPrims.get_ixx little (N.of_nat (std_width w)) (InstancesBase.bytes_of_bits buf) (N.of_nat (cap / 8)) (N.of_nat off) (N.of_nat w) =
+    Some (signed_of w (N_of_bits (get_bits (c_prims little) buf cap off w))).
+Proof. exact c_get_signed_is_GetI. Qed.
+Print Assumptions c02_c_signed_getter.
+
+(* - C++: const_bitspan::getU8/16/32/64 of serialization.hpp *)
+Theorem c02_cpp_walk_des_refines : forall (zv : bool) t bits, wf_ty t = true -> length bits mod 8 = 0 ->
+  (N.of_nat (length bits + tsz t) < CPrims.two64)%N ->
+  walk_des (cpp_prims zv) t bits = des_spec t bits.
+Proof. exact cpp_walk_des_refines. Qed.
+Print Assumptions c02_cpp_walk_des_refines.
+
+(* - Python: Deserializer.fetch_aligned_unsigned / fetch_unaligned_unsigned of nunavut_support.py, selected by the cursor's
+     alignment as the templates do; unbounded integers, so no size side condition at all *)
+Theorem c02_py_walk_des_refines : forall t bits, wf_ty t = true -> length bits mod 8 = 0 ->
+  walk_des py_prims t bits = des_spec t bits.
+Proof. exact py_walk_des_refines. Qed.
+Print Assumptions c02_py_walk_des_refines.
+
+(* non-vacuity: the instances execute the primitive models (13 bits at bit offset 3 / 16 bits at byte 1 of ff 01 07) *)
+Example c02_instances_run :
+  get_bits (c_prims true) (bits_of_bytes [255; 1; 7]%N) 16 3 13 = bits_of_N 13 63 /\
+  get_bits (cpp_prims false) (bits_of_bytes [255; 1; 7]%N) 16 3 13 = bits_of_N 13 63 /\
+  get_bits py_prims (bits_of_bytes [255; 1; 7]%N) 16 8 16 = bits_of_N 16 1.
 Proof. vm_compute. repeat split; reflexivity. Qed.
 
 (* finding F-PY-DES-ASSERT: the quirk-faithful model of the generated Python deserializer (assert consumed <= max bit length of
